@@ -311,7 +311,7 @@ def check_raising_fn(workdir, double):
 
 def plan(tier, seed):
     n = 16 if tier == "quick" else 48
-    return [{"kind": "pairs", "shard": i, "seed": seed, "examples": 14 if tier == "quick" else 110} for i in range(n)]
+    return [{"kind": "pairs", "shard": i, "seed": seed, "examples": 14 if tier == "quick" else 330} for i in range(n)]
 
 
 def work(sh):
